@@ -158,6 +158,13 @@ func alignmentLoop(c *Ctx, l *Loop) string {
 	if cp != nil && l.Header.Parent() == cp {
 		return "createPartition aligns entries and updates while their stop ids agree"
 	}
+	// ... or a helper of createPartition that it alone calls (the pairing loop extracted)
+	if cp != nil && l.Header.Parent() != nil && fnPkgPath(l.Header.Parent()) == fnPkgPath(cp) {
+		callers := c.P.Callers(l.Header.Parent())
+		if len(callers) == 1 && callers[0].Caller == cp {
+			return "a helper of createPartition aligns entries and updates while their stop ids agree"
+		}
+	}
 	return ""
 }
 
